@@ -29,9 +29,11 @@ type rtcRun struct {
 	m *memory.Mapper
 }
 
-func rtcImage() []byte {
+func rtcImage() []byte { return rtcImageOf(0x10, 0x03) }
+
+func rtcImageOf(typ, ramSize uint8) []byte {
 	img := make([]byte, 0x8000)
-	img[0x147], img[0x148], img[0x149] = 0x10, 0x00, 0x03
+	img[0x147], img[0x148], img[0x149] = typ, 0x00, ramSize
 	return img
 }
 
@@ -51,6 +53,10 @@ func (r *rtcRun) do(op string) string {
 		switch {
 		case w[0] == "reset" && len(w) == 1:
 			r.fresh()
+			return "ok"
+		case w[0] == "reset" && len(w) == 3: // reset <type2> <ramsize2>: another MBC3 variant / declared RAM size
+			r.m = newMapper(rtcImageOf(uint8(unhex(w[1])), uint8(unhex(w[2]))))
+			r.m.Write(0x0000, 0x0a)
 			return "ok"
 		case w[0] == "set" && len(w) == 8:
 			r.m.VerifRTCSet(memory.VerifRTC{S: uint8(atoi(w[1])), M: uint8(atoi(w[2])), H: uint8(atoi(w[3])),
@@ -105,6 +111,30 @@ func rtcGen(c *ctx) {
 	r := &rtcRun{c: c}
 	r.do("reset")
 	const P = 1048576
+	// Part 0: the clock registers are reachable whatever RAM the header declares (0, 1, 4, 16, 8 banks) and on both
+	// TIMER cartridge types
+	for _, v := range [][2]int{{0x10, 0}, {0x10, 2}, {0x10, 3}, {0x10, 4}, {0x10, 5}, {0x0f, 0}, {0x0f, 3}, {0x0f, 4}} {
+		r.do(fmt.Sprintf("reset %02x %02x", v[0], v[1]))
+		r.set(10, 20, 5, 300, 0, 0, 77)
+		r.do("w 6000 00")
+		r.do("w 6000 01")
+		for sel := 0x08; sel <= 0x0c; sel++ {
+			r.do(fmt.Sprintf("w 4000 %02x", sel))
+			r.do("r a000")
+			r.do(fmt.Sprintf("w a123 %02x", 1+c.rng.intn(23)))
+			r.do("get")
+			r.do("w 6000 00")
+			r.do("w 6000 01")
+			r.do("r bfff")
+		}
+		for _, b := range []int{0, 1, 3, 7} {
+			r.do(fmt.Sprintf("w 4000 %02x", b))
+			r.do("w a000 5a")
+			r.do("r a000")
+		}
+		c.class(fmt.Sprintf("variant/%02x/%02x", v[0], v[1]))
+	}
+	r.do("reset")
 	// Part 1: the carry chain, one increment from every boundary: each field over its whole register
 	// width (and a few values beyond it, which only the hook can place) with the lower fields at their
 	// carry point and the upper fields at boundary values.
